@@ -600,6 +600,11 @@ public:
       Ms.push_back(std::move(MO));
     }
     O["methods"] = std::move(Ms);
+    // special members: who may copy this object, and does it release anything
+    O["udtor"] = RD->hasUserDeclaredDestructor();
+    O["ucopy"] = RD->hasUserDeclaredCopyConstructor();
+    O["uassign"] = RD->hasUserDeclaredCopyAssignment();
+    O["umove"] = RD->hasUserDeclaredMoveConstructor() || RD->hasUserDeclaredMoveAssignment();
     Records.push_back(std::move(O));
   }
 
